@@ -439,6 +439,17 @@ def make_all_async(text):
     return re.sub(r"(?<!async )\bfunc\(", "async func(", text)
 
 
+def thorough_scale(tier, n):
+    """VERIF_THOROUGH_SCALE (float, default 1) scales the number of random worlds
+    of the thorough tier (to validate it on a heavily loaded machine)."""
+    if tier != "thorough":
+        return n
+    try:
+        return max(1, int(n * float(os.environ.get("VERIF_THOROUGH_SCALE", "1"))))
+    except ValueError:
+        return n
+
+
 def plan(backend, tier, seed, workroot, variants, n_random, profiles, corpus_variants="rotate", quick_corpus=None):
     """Build the job list for a compile-the-output check.
 
@@ -446,6 +457,7 @@ def plan(backend, tier, seed, workroot, variants, n_random, profiles, corpus_var
     gen-worlds flag dicts; random worlds are spread over them.  Returns
     (jobs, stats).  Each job: {id, source, name, wit, world, variant, args, tags}."""
     rng = vcommon.Rng(seed * 7919 + 13)
+    n_random = thorough_scale(tier, n_random)
     jobs = []
     stats = {"excluded": 0, "random_discarded": 0, "corpus_entries": 0, "random_worlds": 0}
 
